@@ -44,9 +44,14 @@ def judge(cfg, lat):
         return sig_for(lat, r[1], cfg)
     if r[1] not in C.NL_set(lat):
         return sig_for(lat, r[1], cfg)
+    tag = "" if cfg == "P" else "[C]"
+    if call(f, lat) != r:
+        return tag + "cprNL:repeated_call_gives_another_value"       # decoders call it back to back with one latitude
     r2 = call(f, -lat)
     if r2 != r:
-        return ("" if cfg == "P" else "[C]") + "cprNL:not_even"
+        return tag + "cprNL:not_even"
+    if call(f, -lat) != r2:
+        return tag + "cprNL:repeated_call_gives_another_value"
     return None
 
 
